@@ -11,7 +11,7 @@ from harness.creators import SHAPES, BLOCK
 import refconc
 
 PROPERTY = "C01"
-MODULES = ["torrent", "hasher", "utils", "mixins"]
+MODULES = ["torrent", "hasher", "utils", "mixins", "cli", "commands"]
 ASSUMPTIONS = [
     "A-hash model: sha1/sha256 are replaced by an injective description-valued function; a 'pass' needs no "
     "assumption on contents (equal descriptions imply equal bytes)",
@@ -42,6 +42,9 @@ def jobs(tier):
     for i, sp in enumerate(spells):
         for shape in (("flat2", "nested3") if tier == "thorough" else (("nested3",) if i % 2 else ("flat2",))):
             out.append(("e2e.%s.spelled-%s" % (shape, sp), "job_e2e", dict(shape=shape, P=16384, K=1, order="reversed", progress=0, spelling=sp)))
+    from harness import matrix
+    for i, row in matrix.rows(tier):
+        out.append(("matrix." + matrix.label(i, row), "job_matrix", dict(row=row)))
     out.append(("e2e.flat2.options", "job_options", dict(shape="flat2", P=16384, K=1)))
     out.append(("e2e.single.options", "job_options", dict(shape="single", P=16384, K=2)))
     out.append(("e2e.second-create-after-nested-add", "job_second", dict(P=16384, K=2)))
@@ -86,7 +89,8 @@ def oracle_v1(E, info, fs, base, sizes, P, shape, tag="C01", aligned=False):
         s = sizes[rels[0]]
         E.check("files" not in info, tag + ".single.no-files")
         E.check(info.get("length") == s, tag + ".single.length")
-        exp = refs.v1_pieces(ABuf.file(cr.fid_of(shape, rels[0]), s), P)
+        from harness import oracles as _orc
+        exp = refs.v1_pieces(_orc.content_of(shape, rels[0], sizes), P)
         E.check(info.get("pieces") == exp, tag + ".single.pieces", "piece string differs from BEP 3 reference")
         return
     files = info.get("files")
@@ -105,7 +109,8 @@ def oracle_v1(E, info, fs, base, sizes, P, shape, tag="C01", aligned=False):
         E.check(rel not in seen, tag + ".files.once", "%r listed twice" % rel)
         seen.append(rel)
         E.check(f["length"] == sizes[rel], tag + ".files.length", "length of %r" % rel)
-        stream.extend(ABuf.file(cr.fid_of(shape, rel), sizes[rel]))
+        from harness import oracles as _orc
+        stream.extend(_orc.content_of(shape, rel, sizes))
     E.check(sorted(seen) == sorted(rels), tag + ".files.all", "listed %r, tree has %r" % (seen, rels))
     exp = refs.v1_pieces(stream, P)
     E.check(info.get("pieces") == exp, tag + ".pieces", "piece string differs from BEP 3 reference of the listed stream")
@@ -130,6 +135,13 @@ def job_e2e(E, shape, P, K, order, progress, spelling=None, _mutants=None):
     oracle_v1(E, info, fs, "/data", sizes, Pn, shape)
     E.check(not fs.log, "C01.no-writes", "creator mutated the filesystem: %r" % (fs.log[:3],))
     _witness(E, [sizes[r] for r in SHAPES[shape]], Pn)
+
+
+def job_matrix(E, row, _mutants=None):
+    """One row of the configuration matrix (harness/matrix.py) with symbolic sizes, judged by the C01 oracle."""
+    from harness import matrix
+    matrix.run(E, "1", row, lambda e, meta, sizes, Pn, shape: oracle_v1(e, meta["info"], None, "/data", sizes, Pn, shape, tag="C01.matrix"),
+               "C01.matrix", _mutants=_mutants)
 
 
 def job_options(E, shape, P, K, _mutants=None):
@@ -216,6 +228,13 @@ def job_hasher_symP(E, n, K, _mutants=None):
 
 def _conc_run(params, model, workdir, seed, notes=None):
     notes = notes or {}
+    if "row" in params:
+        from harness import matrix
+        row = params["row"]
+        meta, data, Pn = matrix.replay("1", row, model, workdir, seed)
+        if isinstance(meta, BaseException):
+            return ["C01.matrix.no-exception: %s: %s" % (type(meta).__name__, meta)]
+        return ["C01.matrix." + b for b in cr.conc_v1(meta["info"], None, data, Pn, sorted(SHAPES[row["tree"]]))]
     if "n" in params:
         n = params["n"]
         P = int(model["P"])
